@@ -11,6 +11,10 @@ For the small decorators the wrapper BODY is translated statement by statement:
     <wrapper>.num_calls += k                        -> .incr k
     x = <pure>                                      -> .pure "x"
     [x =] [await] F(*args, **kwargs|**renamed)      -> .call x F pos kw awaited       (F: decorated function | other_func)
+    [x =] C._get_return_value()                     -> .call x .wrapped .argsUnlessStaticOrClassMethod .kwargs false
+    [x =] await C._async_get_return_value()            (C = FunctionCall(func=DecoratedFunction(func), args=args, kwargs=kwargs); the
+                                                        text of the helper in models/function_call.py is checked to be
+                                                        `func(**kwargs)` for static / class methods and `func(*args, **kwargs)` otherwise)
     x = await y                                     -> .await x "y"
     the rename loop of rename_kwargs                -> .rename {onListed, onOther}
     FunctionCall(...).assert_uses_kwargs()          -> .kwargsGuard
@@ -22,6 +26,11 @@ For the small decorators the wrapper BODY is translated statement by statement:
          getattr(base, name, None) is [not] None -> .baseAttrIsNone,  getattr(base, name, None) as a truth value -> .baseAttrTruthy,
          callable(getattr(base, name, None)) -> .baseAttrCallable;  not / and / or of tests)
     try: … except [Exception|BaseException]: …      -> .tryCatch […] kind […]
+
+The metadata copy is recognised as `@wraps(<decorated function>)` on the wrapper, or as `update_wrapper(<wrapper>, <decorated
+function>)` / `wraps(<decorated function>)(<wrapper>)` in a statement or in the return of the decorator; `counterInitAfterCopy`
+says whether `<wrapper>.num_calls = k` runs AFTER that copy (the copy brings the `__dict__` of the decorated callable along, a
+`num_calls` entry included).
 
 Anything else in a decorator of the REQUIRED list raises `Skip` (the committed snapshot is used and the property rests on the
 correspondence check alone); the other decorators (pedantic, validate, in_subprocess, retry, context managers) only
@@ -142,6 +151,51 @@ def _decorated_function_is_coroutine_ok(repo):
     return False
 
 
+_GRV_CACHE = {}
+
+
+def _norm(node):
+    return ast.unparse(node).replace(' ', '')
+
+
+def _get_return_value_ok(repo, name):
+    """FunctionCall.<name> is, literally,
+           if self.func.is_static_method or self.func.is_class_method: return [await] self.func.func(**self.kwargs)
+           else: return [await] self.func.func(*self.args, **self.kwargs)
+       and func / args / kwargs are the constructor arguments, DecoratedFunction.func the wrapped callable"""
+    key = (repo, name)
+    if key in _GRV_CACHE:
+        return _GRV_CACHE[key]
+    ok = False
+    try:
+        tree = ast.parse(src(repo, 'pedantic/models/function_call.py'))
+        cls = [c for c in tree.body if isinstance(c, ast.ClassDef) and c.name == 'FunctionCall'][0]
+        ms = {m.name: m for m in cls.body if isinstance(m, (ast.FunctionDef, ast.AsyncFunctionDef))}
+        m = ms[name]
+        aw = 'await' if name.startswith('_async') else ''
+        body = [b for b in m.body if not (isinstance(b, ast.Expr) and isinstance(b.value, ast.Constant))]
+        if len(body) == 1 and isinstance(body[0], ast.If) and len(body[0].body) == 1 and len(body[0].orelse) == 1:
+            t = _norm(body[0].test) in ('self.func.is_static_methodorself.func.is_class_method', 'self.func.is_class_methodorself.func.is_static_method')
+            a = _norm(body[0].body[0]) == f'return{aw}self.func.func(**self.kwargs)'
+            b = _norm(body[0].orelse[0]) == f'return{aw}self.func.func(*self.args,**self.kwargs)'
+            shape = t and a and b
+        else:
+            shape = False
+        props = all(n in ms and len(ms[n].body) == 1 and _norm(ms[n].body[0]) == f'returnself._{n}' for n in ('func', 'args', 'kwargs'))
+        init = {_norm(x) for x in ms['__init__'].body}
+        inits = {'self._func=func', 'self._args=args', 'self._kwargs=kwargs'} <= init
+        dtree = ast.parse(src(repo, 'pedantic/models/decorated_function.py'))
+        dcls = [c for c in dtree.body if isinstance(c, ast.ClassDef) and c.name == 'DecoratedFunction'][0]
+        dms = {m.name: m for m in dcls.body if isinstance(m, ast.FunctionDef)}
+        dfunc = 'func' in dms and len(dms['func'].body) == 1 and _norm(dms['func'].body[0]) == 'returnself._func' \
+            and 'self._func=func' in {_norm(x) for x in dms['__init__'].body}
+        ok = bool(shape and props and inits and dfunc)
+    except (OSError, KeyError, IndexError, SyntaxError):
+        ok = False
+    _GRV_CACHE[key] = ok
+    return ok
+
+
 class Level:
     """one decorator level: translation context"""
 
@@ -235,6 +289,13 @@ class WrapperTranslator:
         awaited = False
         if isinstance(e, ast.Await):
             awaited, e = True, e.value
+        if isinstance(e, ast.Call) and isinstance(e.func, ast.Attribute) and isinstance(e.func.value, ast.Name) \
+                and e.func.value.id in self.fc_aliases and e.func.attr in ('_get_return_value', '_async_get_return_value'):
+            if e.args or e.keywords or awaited != e.func.attr.startswith('_async'):
+                raise NotInSubset(f'call {ast.unparse(e)}')
+            if not _get_return_value_ok(self.lv.repo, e.func.attr):
+                raise NotInSubset(f'FunctionCall.{e.func.attr} is not the known two-branch call of the decorated function')
+            return '.wrapped', '.argsUnlessStaticOrClassMethod', '.kwargs', awaited
         if not (isinstance(e, ast.Call) and isinstance(e.func, ast.Name)):
             return None
         c = self.lv.callee_of(e.func.id)
@@ -686,6 +747,9 @@ def dispatch_of(lv: Level):
             return f'.always {lean_str(n)}', own[:-1]
         if n == lv.fparam:
             return '.identity', own[:-1]
+    # return update_wrapper(wrapper, func) / return wraps(func)(wrapper): the wrapper itself comes back
+    if isinstance(last, ast.Return) and copy_call(last.value, lv) is not None:
+        return f'.always {lean_str(copy_call(last.value, lv))}', own[:-1]
     # return contextmanager(wrapper)
     if isinstance(last, ast.Return) and isinstance(last.value, ast.Call) and len(last.value.args) == 1 and isinstance(last.value.args[0], ast.Name) \
             and last.value.args[0].id in lv.wrapper_names:
@@ -700,6 +764,50 @@ def returned_names(lv: Level):
             for x in ast.walk(n.value):
                 if isinstance(x, ast.Name):
                     out.add(x.id)
+    return out
+
+
+def copy_call(e, lv):
+    """`update_wrapper(<wrapper>, <decorated function>)` (positional or wrapper= / wrapped=) or `wraps(<decorated function>)(<wrapper>)`
+    -> name of the wrapper"""
+    if not isinstance(e, ast.Call):
+        return None
+    f = e.func
+    nm = f.attr if isinstance(f, ast.Attribute) else getattr(f, 'id', None)
+    if nm == 'update_wrapper':
+        kws = {k.arg: k.value for k in e.keywords}
+        if set(kws) - {'wrapper', 'wrapped'}:
+            return None       # assigned= / updated= given: not the plain copy
+        a = list(e.args)
+        w = kws.get('wrapper', a[0] if a else None)
+        wd = kws.get('wrapped', a[1] if len(a) > 1 else (a[0] if a and 'wrapper' in kws else None))
+        if isinstance(w, ast.Name) and w.id in lv.wrapper_names and isinstance(wd, ast.Name) and wd.id == lv.fparam:
+            return w.id
+        return None
+    if isinstance(f, ast.Call) and len(e.args) == 1 and not e.keywords and isinstance(e.args[0], ast.Name) and e.args[0].id in lv.wrapper_names:
+        g = f.func
+        gn = g.attr if isinstance(g, ast.Attribute) else getattr(g, 'id', None)
+        if gn == 'wraps' and len(f.args) == 1 and not f.keywords and isinstance(f.args[0], ast.Name) and f.args[0].id == lv.fparam:
+            return e.args[0].id
+    return None
+
+
+def level_copies(lv):
+    """{wrapper name: index of the own statement of the decorator level that copies the metadata onto it}"""
+    out = {}
+    for i, s in enumerate(lv.fn.body):
+        e = None
+        if isinstance(s, ast.Expr):
+            e = s.value
+        elif isinstance(s, ast.Return):
+            e = s.value
+        elif isinstance(s, ast.Assign) and len(s.targets) == 1 and isinstance(s.targets[0], ast.Name) and s.targets[0].id in lv.wrapper_names:
+            e = s.value
+            if copy_call(e, lv) not in (None, s.targets[0].id):
+                continue
+        w = copy_call(e, lv) if e is not None else None
+        if w is not None and w not in out:
+            out[w] = i
     return out
 
 
@@ -719,11 +827,16 @@ def deco_time(lv: Level, rest, required):
     stmts = []
     ok = True
     tr = WrapperTranslatorForLevel(lv)
+    lv.counter_init_at = None
     for s in rest:
+        if (isinstance(s, ast.Expr) and copy_call(s.value, lv) is not None) or \
+                (isinstance(s, ast.Assign) and len(s.targets) == 1 and isinstance(s.targets[0], ast.Name) and copy_call(s.value, lv) == s.targets[0].id):
+            continue          # the metadata copy as a statement: see level_copies
         if isinstance(s, ast.Assign) and len(s.targets) == 1 and isinstance(s.targets[0], ast.Attribute) and s.targets[0].attr == COUNTER_ATTR \
                 and isinstance(s.targets[0].value, ast.Name) and s.targets[0].value.id in lv.wrapper_names \
                 and isinstance(s.value, ast.Constant) and isinstance(s.value.value, int) and not isinstance(s.value.value, bool):
             counter_init = f'(some ({s.value.value}))'
+            lv.counter_init_at = (s.targets[0].value.id, lv.fn.body.index(s))
             continue
         if isinstance(s, ast.Assign) and len(s.targets) == 1 and isinstance(s.targets[0], ast.Name) and \
                 (s.targets[0].id in lv.name_aliases or s.targets[0].id in lv.coro_aliases or s.targets[0].id in lv.df_aliases):
@@ -767,11 +880,12 @@ def translate_level(repo, module, top, fn, enclosing):
     if required and disp == '.unknown':
         raise Skip(f'{top.name}: the return statement(s) of the decorator are outside the subset')
     ret = returned_names(lv)
+    copies = level_copies(lv)
     wrappers, rows = [], []
     for w in lv.wrappers:
         is_async = isinstance(w, ast.AsyncFunctionDef)
         is_gen = any(isinstance(n, (ast.Yield, ast.YieldFrom)) for n in ast.walk(w))
-        wraps = has_wraps(w, lv.fparam)
+        wraps = has_wraps(w, lv.fparam) or w.name in copies
         returned = w.name in ret
         body = 'Option.none'
         try:
@@ -785,6 +899,15 @@ def translate_level(repo, module, top, fn, enclosing):
         rows.append(f'  {{ module := {lean_str(module)}, deco := {lean_str(top.name)}, wrapper := {lean_str(w.name)}, isAsync := {lean_bool(is_async)}, isGenerator := {lean_bool(is_gen)}, '
                     f'wraps := {lean_bool(wraps)}, returned := {lean_bool(returned)} }}')
     counter_init, dt = deco_time(lv, rest or [], required)
+    # does `<wrapper>.num_calls = k` run after the metadata copy onto that wrapper?  `@wraps` on the def copies when the def is executed
+    init_after_copy = True
+    if lv.counter_init_at is not None:
+        wn, at = lv.counter_init_at
+        wdef = [w for w in lv.wrappers if w.name == wn][0]
+        copy_at = lv.fn.body.index(wdef) if has_wraps(wdef, lv.fparam) else copies.get(wn)
+        if wn in copies and has_wraps(wdef, lv.fparam):
+            copy_at = max(copy_at, copies[wn])        # copied twice: the later one decides
+        init_after_copy = copy_at is None or at > copy_at
     rd = getattr(lv, 'used_rename_dict', None)
     rename_dict = 'Option.none'
     if rd is not None:
@@ -793,7 +916,8 @@ def translate_level(repo, module, top, fn, enclosing):
     ident = _lean_ident(top.name)
     text = (f'/-- `{top.name}` in {module}.py (decorated-function parameter `{lv.fparam}`) -/\n'
             f'def {ident} : Deco :=\n  {{ module := {lean_str(module)}, name := {lean_str(top.name)},\n    wrappers := [\n' + ',\n'.join(wrappers) + '],\n'
-            f'    dispatch := {disp},\n    decoTime := {dt},\n    counterInit := {counter_init},\n    renameDict := {rename_dict} }}\n')
+            f'    dispatch := {disp},\n    decoTime := {dt},\n    counterInit := {counter_init},\n    counterInitAfterCopy := {lean_bool(init_after_copy)},\n'
+            f'    renameDict := {rename_dict} }}\n')
     return ident, text, rows
 
 
@@ -811,9 +935,10 @@ inductive Callee where
   | wrapped | other
 deriving DecidableEq, Repr
 
-/-- positional arguments of a call site: `*args` or nothing -/
+/-- positional arguments of a call site: `*args`, nothing, or — through `FunctionCall._get_return_value` — `*args` unless the
+    decorated callable is classified as a static or class method (then nothing) -/
 inductive PosSrc where
-  | args | empty
+  | args | empty | argsUnlessStaticOrClassMethod
 deriving DecidableEq, Repr
 
 /-- keyword arguments of a call site: `**kwargs`, `**<dict built by the rename loop>` or nothing -/
@@ -899,6 +1024,9 @@ structure Deco where
   /-- statements the decorator runs when it is applied (`none`: not translated) -/
   decoTime : Option (List Stmt)
   counterInit : Option Int
+  /-- `<wrapper>.num_calls = k` runs after the metadata copy (`@wraps` / `update_wrapper`) onto that wrapper, which brings the
+      `__dict__` of the decorated callable — a `num_calls` entry included — along; vacuously true without a counter -/
+  counterInitAfterCopy : Bool
   /-- `param_dict = {p.<key>: p.<value> for p in params}` -/
   renameDict : Option (String × String)
 deriving Repr
